@@ -29,6 +29,7 @@ type MixWeights struct {
 	ExactFeePct                     int
 	LowGasPct                       int
 	CoSignPct                       int // share of txs co-signed by a second account (extra MsgSend), half of them naming it as fee payer
+	ReimportPct                     int // per-block chance that the history continues on a fresh chain initialised from an export (Env.Reimport)
 }
 
 var defaultMix = MixWeights{Ent: 30, Reg: 30, Stream: 15, Bank: 15, Staking: 5, NestedPct: 10, GranterPct: 6, BadSeqPct: 5, GovPct: 5, VetoPct: 2, EntHostile: 15, ExactFeePct: 70, LowGasPct: 2, CoSignPct: 5}
@@ -96,6 +97,9 @@ func RunMixed(e *Env, g *Gen, w MixWeights, nBlocks int) {
 	for b := 0; b < nBlocks && e.Halted == ""; b++ {
 		if e.Last == nil {
 			e.Last = e.L.Observe(e.L.Ctx())
+		}
+		if w.ReimportPct > 0 && b > 3 && r.Chance(w.ReimportPct) {
+			e.Reimport()
 		}
 		if r.Chance(w.GovPct) {
 			mixedGovChange(e, r)
@@ -260,6 +264,9 @@ func runMixedProp(c *fw.Ctx, prop string) {
 	}
 	if prop == "C02" && c.Case%4 == 0 {
 		c02GenesisProbes(c, o)
+	}
+	if r.Chance(25) { // a quarter of the histories cross one or two export/import boundaries
+		w.ReimportPct = 4
 	}
 	e := NewEnv(c, o)
 	defer e.L.Cleanup()
